@@ -21,8 +21,8 @@ import (
 	"github.com/ethereum/go-ethereum/common"
 
 	consensustypes "github.com/palomachain/paloma/v2/x/consensus/types"
-	schedulertypes "github.com/palomachain/paloma/v2/x/scheduler/types"
 	evmtypes "github.com/palomachain/paloma/v2/x/evm/types"
+	schedulertypes "github.com/palomachain/paloma/v2/x/scheduler/types"
 	skywaytypes "github.com/palomachain/paloma/v2/x/skyway/types"
 	valsettypes "github.com/palomachain/paloma/v2/x/valset/types"
 
